@@ -86,9 +86,20 @@ def spec_to_code(rep, tier):
         d = S.check_case(toks, outcome, text)
         if d:
           rep.violation(dict(kind='parser-divergence', clause=d['clause'], toks=' '.join(toks)),
-                        dict(kind='syntax-case', toks=toks, outcome=outcome, text=text, divergence=d))
+                        dict(kind='syntax-case', toks=toks, outcome=outcome, text=text, divergence=d, prev=S.LAST_PREV[0]))
     rep.sample(dict(kind='token string exported by TLC, concretised and parsed by gin', toks=cases[len(cases) // 2][0],
                     spec_outcome=cases[len(cases) // 2][1]))
+
+
+_TWINS = {'1': 'True', '0': 'False', 'True': '1', 'False': '0.0', '17': '17.0', '1e3': '1_000', '1_000': '1e3', '0.0': '0', '0x1F': '31.0',
+          '0b11': '3.0', '3.': '0b11'}
+
+
+def _type_twin(text):
+  """The same literal with numbers / booleans replaced by equal values of another type (outside string literals)."""
+  if "'" in text or '"' in text or '@' in text or '%' in text:
+    return text
+  return re.sub(r'(?<![\w.])(0x1F|0b11|1_000|1e3|17|0\.0|3\.|True|False|1|0)(?![\w.])', lambda m: _TWINS[m.group(1)], text)
 
 
 def code_to_spec(rep, tier):
@@ -99,6 +110,9 @@ def code_to_spec(rep, tier):
   for _ in range(n):
     t = S.gen_value(rng, rng.choice([1, 2, 2, 3]))
     texts.append(t)
+    tw = _type_twin(t)
+    if tw != t and rng.random() < 0.5:
+      texts.append(tw)       # directly after t: an equal value of another type must replace it
     texts.append(S.near_miss(rng, t))
   cases = []
   for t in texts:
@@ -118,13 +132,13 @@ def code_to_spec(rep, tier):
           py = ast.literal_eval(t.strip())
           if not S.exact_equal(py, val):
             rep.violation(dict(kind='parser-divergence', clause='python-value'),
-                          dict(kind='syntax-text', text=t, expected=repr(py)[:300], got=repr(val)[:300]))
+                          dict(kind='syntax-text', text=t, expected=repr(py)[:300], got=repr(val)[:300], prev=S.LAST_PREV[0]))
         except Exception as e:  # pylint: disable=broad-except
           rep.violation(dict(kind='parser-divergence', clause='accepted-non-literal'),
-                        dict(kind='syntax-text', text=t, got=repr(val)[:300], python='%s: %s' % (type(e).__name__, e)))
-      cases.append([kinds, 'ok', _json_shape(shp), t])
+                        dict(kind='syntax-text', text=t, got=repr(val)[:300], python='%s: %s' % (type(e).__name__, e), prev=S.LAST_PREV[0]))
+      cases.append([kinds, 'ok', _json_shape(shp), t, S.LAST_PREV[0]])
     else:
-      cases.append([kinds, 'err', ['none'], t])
+      cases.append([kinds, 'err', ['none'], t, S.LAST_PREV[0]])
     rep.nontrivial_case(t)
   batch = 4000
   for i in range(0, len(cases), batch):
@@ -135,7 +149,7 @@ def code_to_spec(rep, tier):
       rep.traces_validated += 1
       if not ok:
         rep.violation(dict(kind='trace-rejected', module='GinSyntax', real=c[1]),
-                      dict(kind='syntax-trace', kinds=c[0], real_outcome=c[1], real_shape=c[2], text=c[3]))
+                      dict(kind='syntax-trace', kinds=c[0], real_outcome=c[1], real_shape=c[2], text=c[3], prev=c[4]))
   rep.sample(dict(kind='generated text, tokenised by CPython, real outcome validated by TLC', text=cases[0][3],
                   kinds=cases[0][0], real=cases[0][1]))
 
@@ -186,17 +200,21 @@ def replay(path):
     blob = json.load(fh)
   r = blob['replay']
   if r['kind'] == 'syntax-case':
-    d = S.check_case(r['toks'], r['outcome'], r['text'])
+    d = S.check_case(r['toks'], r['outcome'], r['text'], prev=r.get('prev') or '')
   elif r['kind'] == 'syntax-trace':
-    kind, val = S.real_parse(r['text'])
+    kind, val = S.real_parse(r['text'], prev=r.get('prev') or '')
     _, config = S.setup()
     case = [S.abstract(r['text']), 'ok' if kind == 'ok' else 'err', S.shape(val, config) if kind == 'ok' else ['none']]
     ok, _ = _validate([case])
     d = None if ok[0] else dict(clause='trace-rejected', case=case)
   else:
     import ast
-    kind, val = S.real_parse(r['text'])
-    d = dict(clause='python-value', got=[kind, repr(val)[:200]]) if kind == 'ok' else None
+    kind, val = S.real_parse(r['text'], prev=r.get('prev') or '')
+    try:
+      same = kind == 'ok' and S.exact_equal(ast.literal_eval(r['text'].strip()), val)
+    except Exception:  # pylint: disable=broad-except
+      same = False
+    d = None if same else dict(clause='python-value', got=[kind, repr(val)[:200]])
   print('divergence: %s' % json.dumps(d, default=str)[:1500] if d else 'conforms')
   if d:
     print('VIOLATION property=C02 replay=%s' % path)
